@@ -13,6 +13,10 @@ import sympy
 SHADOW = ["beta", "gamma", "zeta", "S", "N", "I", "E", "Q", "O", "pi", "re", "im", "sin", "cos",
           "exp", "sqrt", "Symbol", "lambda_"]
 PLAIN = ["theta", "phi", "alpha", "x", "y", "t0", "beta_1", "w_10"]
+# identifiers that number parsers (float(), int(), complex(), JSON, sympy's number names) read as literals when the
+# text is taken for a number before it is taken for a name
+LITERALS = ["inf", "nan", "infinity", "Inf", "NaN", "Infinity", "INF", "NAN", "oo", "zoo", "null", "true", "false",
+            "none", "e", "j", "J", "E10", "e5", "e_5", "nanj", "infj", "_1", "x0j", "a1e5", "nan_"]
 INDEXED = ["x[3]", "x[10]", "params[0]", "x[0]", "p[1]", "theta[2]"]
 # names that the text format cannot keep apart from sympy's own parser hooks
 PARSER_HOOKS = ["Integer", "Float"]
@@ -28,17 +32,19 @@ def base_of(name):
 def symbol_pool(rng, k=4, style=None):
     """k distinct symbols.  style: plain / shadow / indexed / mixed_index (indexed together
     with plain ones, same and different base) / any"""
-    style = style or rng.choice(["plain", "shadow", "indexed", "mixed_index", "any", "any"])
+    style = style or rng.choice(["plain", "shadow", "indexed", "mixed_index", "any", "any", "literal"])
     if style == "plain":
         names = rng.sample(PLAIN, min(k, len(PLAIN)))
     elif style == "shadow":
         names = rng.sample(SHADOW, min(k, len(SHADOW)))
     elif style == "indexed":
         names = rng.sample(INDEXED, min(k, len(INDEXED)))
+    elif style == "literal":
+        names = rng.sample(LITERALS, min(k, len(LITERALS)))
     elif style == "mixed_index":
         names = rng.sample(INDEXED, max(1, k // 2)) + rng.sample(PLAIN + ["params", "p"], max(1, k - k // 2))
     else:
-        names = rng.sample(PLAIN + SHADOW + INDEXED, k)
+        names = rng.sample(PLAIN + SHADOW + INDEXED + LITERALS, k)
     return [sympy.Symbol(n) for n in names]
 
 
